@@ -10,6 +10,7 @@ Section Balance.
 Variable I : iface.
 Variable sw : switches.
 Hypothesis Hfirst : sw_cont_check_first sw = true.
+Hypothesis Hdec : sw_counter_dec_first sw = true.
 
 (* ---------- no StoryError escapes between the increment and the decrement ---------- *)
 Lemma ner_get_path_comps : forall p c, NER (get_path_comps c p).
@@ -113,7 +114,7 @@ Qed.
 Theorem continue_internal_balanced limited r :
   triple (Pk r) (continue_internal I sw limited) (fun _ => Pk r) (Pk r).
 Proof.
-  unfold continue_internal. rewrite Hfirst. cbn [negb andb].
+  unfold continue_internal. rewrite Hfirst, Hdec. cbn [negb andb when].
   eapply triple_bind; [apply keeps_triple, keeps_get|]. intros w00. cbn beta.
   eapply triple_bind; [apply keeps_triple, kr_can|]. intros can0.
   destruct (negb (w_async w00) && negb can0).
@@ -136,6 +137,7 @@ Proof.
   { apply (triple_modify (Pk (N.succ r)) (Pk r)). intros w' Hw. unfold Pk in *. destruct w'; cbn in *. subst. apply N.pred_succ. }
   intros ?.
   eapply triple_bind; [apply keeps_triple, kr_deliver|]. intros ?.
+  eapply triple_bind; [apply keeps_triple, keeps_ret|]. intros ?.
   destruct changed as [m|]; [|apply keeps_triple, keeps_ret].
   apply keeps_triple. apply keeps_mfor. intros kv. apply kr_notify.
 Qed.
